@@ -33,6 +33,11 @@ def gen_value(rng: random.Random, ty: str, spread: int):
         if r < 0.93:
             return -rng.randint(1, spread)                       # accepted by the (vacuous) sign check
         return rng.choice([2**62, 2**62 + 1, 10**14, 83010348331692]) + rng.randint(0, 3)   # int64 wrap in _spread
+    if ty == "int-small":                                        # a column that also arrives as float along the history
+        r = rng.random()
+        return rng.randint(0, spread) if r < 0.8 else rng.randint(90000, 90000 + spread) if r < 0.9 else -rng.randint(1, spread)
+    if ty == "float-whole":                                      # whole numbers in a float column ("ages in whole years")
+        return float(rng.randint(-3, spread * 2))
     if ty == "float32":                                          # exactly representable in float32 (and float64)
         return rng.randint(-spread * 4, spread * 16) / 16
     if ty == "float":
@@ -89,7 +94,75 @@ def chain_keys(rng: random.Random, ncols: int, size: int, t: int, occupied_hint=
     return group, bystanders
 
 
-def gen_history(rng: random.Random, tier: str, dup_rate: float, n_batches=None, types=None, size=None, mode=None):
+def choose_repr(rng: random.Random, types, keys, tunit):
+    """a representation for every column of one batch that holds its values exactly"""
+    out = []
+    for j, ty in enumerate(types):
+        vals = [k[j] for k in keys]
+        if ty == "time":
+            out.append(rng.choice(["ns", "ns", "us", "us", "s"] if len(keys) <= 3 else ["ns", "us", "us"]))
+            continue
+        whole = all(float(v).is_integer() and abs(v) < 2**53 for v in vals)
+        opts = ["float64"] if all(abs(v) < 2**53 for v in vals) or ty == "float" else []
+        if all(_f32_exact(float(v)) for v in vals):
+            opts.append("float32")
+        if whole:
+            opts += ["int64", "int64"] + [d for d, (lo, hi_) in SMALL_INT.items() if all(lo <= v <= hi_ for v in vals)]
+        out.append(rng.choice(opts) if opts else None)
+    return out
+
+
+def expected_ok(hist):
+    """per batch: will it be accepted (decided from the case: values, not representations), and the labels registered after it"""
+    types, seen, labels, out = hist["cols"], set(), [], []
+    for b in hist["batches"]:
+        cks = [ic.canon_key(types, k) for k in b["keys"]]
+        ok = bool(b["sims"]) and not b.get("bad") and len(set(cks)) == len(cks) and not (set(cks) & seen)
+        if ok:
+            seen |= set(cks)
+            labels = labels + list(b["sims"])
+        out.append((ok, list(labels)))
+    return out
+
+
+def add_repeats(rng: random.Random, hist):
+    """LESSONS.md 12: exact repeats after something else happened – a whole batch registered again verbatim (same labels,
+    same keys; also in another representation of the same values) must be refused as duplicates and change nothing; the same
+    lookup asked again after another update; a lookup of a label that is not registered yet (KeyError), asked again right
+    after that label was registered."""
+    bs = hist["batches"]
+    if not hist["cols"] or not bs:
+        return
+    if rng.random() < 0.35:
+        j = rng.randrange(len(bs))
+        if bs[j]["sims"] and not bs[j].get("bad"):
+            k = rng.randint(j + 1, len(bs))
+            rep = {kk: (list(v) if isinstance(v, list) else v) for kk, v in bs[j].items() if kk not in ("get", "get_kind")}
+            rep["t"] = list(bs[k - 1]["t"]) if rng.random() < 0.5 else list(bs[j]["t"])
+            rep["get"] = None
+            rep["repeat_of"] = j
+            if rng.random() < 0.5:
+                rep["repr"] = choose_repr(rng, hist["cols"], rep["keys"], hist.get("tunit", "ns"))
+            bs.insert(k, rep)
+    ok = expected_ok(hist)
+    gets = [i for i, b in enumerate(bs) if b.get("get") is not None]
+    if gets and rng.random() < 0.4:
+        j = rng.choice(gets)
+        later = [k for k in range(j + 1, len(bs))]
+        if later:
+            k = rng.choice(later)
+            bs[k]["get"], bs[k]["get_kind"] = list(bs[j]["get"]), bs[j].get("get_kind", "index")
+            bs[k]["get_repeats"] = j
+    cand = [j for j in range(len(bs) - 1) if ok[j + 1][0] and bs[j + 1]["sims"][0] not in ok[j][1] and "get_repeats" not in bs[j + 1]]
+    if cand and rng.random() < 0.3:
+        j = rng.choice(cand)
+        req = rng.sample(ok[j][1], min(2, len(ok[j][1]))) + [bs[j + 1]["sims"][0]]
+        bs[j]["get"], bs[j]["get_kind"] = list(req), "index"
+        bs[j + 1]["get"], bs[j + 1]["get_kind"] = list(req), "index"
+        bs[j + 1]["get_repeats"] = j
+
+
+def gen_history(rng: random.Random, tier: str, dup_rate: float, n_batches=None, types=None, size=None, mode=None, hetero_rate=None):
     """one registration history; `mode` picks the shape (LESSONS.md 9: rare conjunctions get their own mode):
     plain – 1-6 batches of random sizes; trickle – a dense first batch, then many batches of 1-2 simulants;
     dense – a small block filled to 80-100 % (exactly full included); chain – aimed higher-order collisions inside
@@ -129,6 +202,10 @@ def gen_history(rng: random.Random, tier: str, dup_rate: float, n_batches=None, 
     else:
         t = rng.randint(0, 5)
     gtypes = ["float32" if ty == "float" and rng.random() < 0.25 else ty for ty in types]    # value generators per column
+    # LESSONS.md 13: the representation of a key column changes ALONG the history (int <-> float <-> narrower, datetime units)
+    hetero = mode != "chain" and rng.random() < (hetero_rate if hetero_rate is not None else 0.4)
+    if hetero:
+        gtypes = ["int-small" if g == "int" else g for g in gtypes]
     # simulant labels: increasing with gaps, or dealt from a shuffled pool so that later batches interleave with earlier ones
     pool = None
     if rng.random() < 0.4:
@@ -172,10 +249,12 @@ def gen_history(rng: random.Random, tier: str, dup_rate: float, n_batches=None, 
                 keys = aimed
                 rng.shuffle(keys)
                 n = min(left, len(keys) + rng.randint(0, 3))
+        # this batch's value generators: a float column sometimes carries whole numbers only (so it can arrive as integers)
+        btypes = ["float-whole" if hetero and types[j] == "float" and rng.random() < 0.45 else g for j, g in enumerate(gtypes)]
         tries = 0
         while len(keys) < n and tries < 50 * n:
             tries += 1
-            k = [gen_value(rng, ty, spread) for ty in gtypes] if mode != "chain" else [rng.randint(0, 6000)] + [rng.randint(0, 9) for _ in range(ncols - 1)]
+            k = [gen_value(rng, ty, spread) for ty in btypes] if mode != "chain" else [rng.randint(0, 6000)] + [rng.randint(0, 9) for _ in range(ncols - 1)]
             ck = ic.canon_key(types, k)
             if ck in seen or ck in local:
                 continue
@@ -219,6 +298,8 @@ def gen_history(rng: random.Random, tier: str, dup_rate: float, n_batches=None, 
             fr["range"] = True
         if fr:
             batch["frame"] = fr
+        if hetero and keys and rng.random() < 0.75:
+            batch["repr"] = choose_repr(rng, types, keys, tunit)
         if mode == "badtype" and b == max(1, nb // 2) and ok:
             # same keys, but one column arrives with a dtype IndexMap cannot hash: must be rejected, map unchanged
             batch["bad"] = {"col": rng.randrange(ncols), "dtype": rng.choice(["bool", "str", "category"])}
@@ -290,7 +371,21 @@ def gen_history(rng: random.Random, tier: str, dup_rate: float, n_batches=None, 
         dts.append(dt)
     if any(dts):
         hist["dtypes"] = dts
+    add_repeats(rng, hist)
     return hist
+
+
+def coercion_hazard(hist, upto):
+    """candidate finding (round 5): a numeric key column that holds integers of magnitude >= 2^53 AND arrives as float in some
+    batch (up to batch `upto`): `MultiIndex.append` makes the level float64 and distinct integer keys collapse"""
+    for j, ty in enumerate(hist["cols"]):
+        if ty == "time":
+            continue
+        bs = [b for b in hist["batches"][: upto + 1] if b["sims"] and not b.get("bad")]
+        if any(ic.repr_class(ic.repr_of(hist, b, j)) == "float" for b in bs) and \
+                any(ic.repr_class(ic.repr_of(hist, b, j)) == "int" and any(abs(k[j]) >= 2**53 for k in b["keys"]) for b in bs):
+            return True
+    return False
 
 
 def oracle_history(hist, obs, label=""):
@@ -339,6 +434,8 @@ def oracle_history(hist, obs, label=""):
         else:
             if rec["outcome"] != "ok" and "simulant_index" in ic.names_of(hist):
                 fails.append({"sig": "key-column-named-simulant_index", "msg": f"{label}batch {bi}: a key column called 'simulant_index' (the name IndexMap gives its own index level) cannot be registered: {rec['outcome']}"})
+            elif rec["outcome"] != "ok" and coercion_hazard(hist, bi):
+                fails.append({"sig": "large-integer-keys-coerced-to-float", "msg": f"{label}batch {bi}: unique keys rejected ({rec['outcome']}): the column holds integers >= 2^53 and also arrived as float; the index level became float64 and distinct keys collapsed"})
             elif rec["outcome"] != "ok":
                 fails.append({"sig": "unique-keys-rejected", "msg": f"{label}batch {bi}: {rec['outcome']}"})
         if rec["outcome"] == "ok" and not b.get("bad"):
@@ -363,7 +460,7 @@ def oracle_history(hist, obs, label=""):
                 given = {s: ic.plain_case_key(types, k) for s, k in zip(b["sims"], b["keys"])}
                 for s, k in rec["keys"] or []:
                     if s in given and k != given[s]:
-                        fails.append({"sig": "key-misattached", "msg": f"{label}batch {bi}: simulant {s} carries key {k}, registered with {given[s]}"})
+                        fails.append({"sig": "large-integer-keys-coerced-to-float" if coercion_hazard(hist, bi) else "key-misattached", "msg": f"{label}batch {bi}: simulant {s} carries key {k}, registered with {given[s]}"})
                         break
             prev = cur
         if b.get("get") is not None:
@@ -394,9 +491,21 @@ def history_tags(hist, obs):
     if hist["size"] <= 2:
         t.append(f"size={hist['size']}")
     used, registered = set(), set()
+    prev_cl = None
     for bi, (b, rec) in enumerate(zip(hist["batches"], obs)):
         t.append("update:" + rec["outcome"])
         cks = [ic.canon_key(hist["cols"], k) for k in b["keys"]] if hist["cols"] else []
+        if "repeat_of" in b:
+            t.append("repeat:batch-verbatim" + ("-other-representation" if b.get("repr") != hist["batches"][b["repeat_of"]].get("repr") else ""))
+        if "get_repeats" in b:
+            t.append("repeat:lookup-after-update" + ("(was-KeyError)" if isinstance(rec.get("get"), list) and obs[b["get_repeats"]].get("get") == "err:key" else ""))
+        if hist["cols"] and b["sims"] and not b.get("bad"):
+            cl = ic.batch_classes(hist, b)
+            if bi and prev_cl is not None and cl != prev_cl:
+                for a_, b_ in zip(prev_cl, cl):
+                    if a_ != b_:
+                        t.append(f"representation-change:{a_}->{b_}")
+            prev_cl = cl
         if b.get("bad"):
             t.append("unhashable:" + b["bad"]["dtype"])
         elif len(set(cks)) != len(cks):
@@ -485,7 +594,9 @@ def gen_sim(rng: random.Random):
             "seed": rng.randint(0, 9), "clock": rng.choice(["datetime", "datetime", "simple"]),
             "split": rng.random() < 0.35, "whole_frame": rng.random() < 0.5, "draw_at_creation": rng.random() < 0.5,
             "drawer": rng.random() < 0.5, "untrack": rng.random() < 0.4, "zero_births_call": births == 0,
-            "f31": "k3" in keycols and rng.random() < 0.5}
+            "f31": "k3" in keycols and rng.random() < 0.5,
+            "hetero": ({"cohort": rng.choice(["frac", "frac", "int64", "float64", "int32"]), "imm": rng.choice(["int64", "int64", "float64", "int8"]),
+                        "cohort_time_ns": rng.random() < 0.5} if "k1" in keycols and rng.random() < 0.5 else None)}
 
 
 def run_sim(case):
@@ -536,9 +647,21 @@ def run_sim(case):
                 return
             k1 = [float(self.n + i) / 4 for i in range(n)]
             k3 = [(self.n + i) * 7 % 1000 for i in range(n)]
+            k2 = d.creation_time
+            het = case.get("hetero")
+            if het:
+                # LESSONS.md 13: the cohort and the later arrivals carry the key columns in different representations
+                # (fractional float ages, then immigrants with whole ages as integers – or the other way round; nanosecond
+                # entrance times for the cohort, pandas' default unit afterwards)
+                if self.n == 0:
+                    k1 = [i + 0.25 for i in range(n)] if het["cohort"] == "frac" else pd.Series(range(n), dtype=het["cohort"]).to_numpy()
+                    if het.get("cohort_time_ns") and case.get("clock") != "simple":
+                        k2 = pd.Series(k2).astype("datetime64[ns]").to_numpy()
+                else:
+                    k1 = pd.Series([100 + self.n + i for i in range(n)], dtype=het["imm"]).to_numpy()
             self.n += n
             # the frame has more columns than the keys and another column order than key_columns
-            df = pd.DataFrame({alias.get("k3", "k3"): k3, "junk": "x", "k1": k1, "k2": d.creation_time}, index=d.index)
+            df = pd.DataFrame({alias.get("k3", "k3"): k3, "junk": "x", "k1": k1, "k2": k2}, index=d.index)
             parts = [df.iloc[: n // 2], df.iloc[n // 2:]] if case.get("split") and n > 1 else [df]
             for part in parts:
                 self.reg(part if case.get("whole_frame") else part[keycols])
@@ -728,6 +851,26 @@ def lessons_boundary():
                                 {"t": ["int", 0], "sims": [13], "keys": [key(6)], "get": [13]},
                                 {"t": ["int", 1], "sims": [3], "keys": [key(8)], "frame": {"order": list(range(len(cols)))[::-1]},
                                  "get": [3, 12, 10], "get_kind": "series"}]})
+    # 13: the representation of a column changes along the history – integers after floats after narrower integers (with
+    # collisions in a block of 17, a duplicate that is only a duplicate BY VALUE: 3 after 3.0, 30.0 after 30), datetimes in
+    # ns, then us, then s, then ns again; 12: the first batch registered again verbatim, and again as other dtypes; the same
+    # lookup before and after the label exists
+    out.append({"kind": "hist", "mode": "boundary", "size": 17, "cols": ["float", "time"], "tunit": "ns",
+                "batches": [{"t": ["int", 0], "sims": [0, 1, 2, 3], "keys": [[20.5, T0], [31.25, T0], [47.75, T0 + DAY], [3.0, T0]], "get": [3, 10]},
+                            {"t": ["int", 1], "sims": list(range(10, 19)), "keys": [[float(v), T0 + DAY] for v in (30, 40, 50, 60, 70, 80, 90, 100, 110)],
+                             "repr": ["int64", "us"], "get": [3, 10], "get_repeats": 0},
+                            {"t": ["int", 2], "sims": [50], "keys": [[3.0, T0]], "repr": ["int32", "s"], "get": None},
+                            {"t": ["int", 2], "sims": [51, 52], "keys": [[7.0, T0], [30.0, T0 + DAY]], "repr": ["float32", "ns"], "get": None},
+                            {"t": ["int", 2], "sims": [0, 1, 2, 3], "keys": [[20.5, T0], [31.25, T0], [47.75, T0 + DAY], [3.0, T0]], "repeat_of": 0, "get": None},
+                            {"t": ["int", 3], "sims": [0, 1, 2, 3], "keys": [[20.5, T0], [31.25, T0], [47.75, T0 + DAY], [3.0, T0]], "repeat_of": 0,
+                             "repr": ["float32", "us"], "get": None},
+                            {"t": ["int", 3], "sims": [53, 54], "keys": [[7.0, T0], [8.5, T0 + DAY]], "repr": [None, "s"], "get": [54, 53, 0, 18]},
+                            {"t": ["int", 4], "sims": [60, 61], "keys": [[9.0, T0], [10.0, T0]], "repr": ["uint8", "ns"], "get": [54, 53, 0, 18], "get_repeats": 6}]})
+    out.append({"kind": "hist", "mode": "boundary", "size": 19, "cols": ["int"], "tunit": "ns",
+                "batches": [{"t": t, "sims": [0, 1], "keys": [[5], [90001]], "repr": ["int8" if False else "int32"], "get": None},
+                            {"t": t, "sims": [2, 3], "keys": [[6], [-7]], "repr": ["float64"], "get": None},
+                            {"t": t, "sims": [4], "keys": [[5]], "repr": ["float32"], "get": [4]},
+                            {"t": t, "sims": [5, 6], "keys": [[8], [9]], "repr": ["uint8"], "get": [6, 5, 3, 2, 1, 0]}]})
     # 3, 10: a key column of a type the index cannot hash – as the very first registration and after a good one
     out.append({"kind": "hist", "mode": "boundary", "size": 19, "cols": ["int", "float"], "tunit": "ns",
                 "batches": [{"t": t, "sims": [0, 1], "keys": [[1, 0.5], [2, 0.5]], "bad": {"col": 1, "dtype": "str"}, "get": [0]},
@@ -793,6 +936,10 @@ class C03(Prop):
         out.append({"kind": "sim", "keycols": ["k1"], "pop": 6, "map_size": 61, "births": 3, "steps": 4, "seed": 3})
         out.append({"kind": "sim", "keycols": ["k3", "k1"], "pop": 4, "map_size": 41, "births": 2, "steps": 3, "seed": 2, "clock": "simple",
                     "split": True, "whole_frame": True, "draw_at_creation": True, "drawer": True, "untrack": True})
+        out.append({"kind": "sim", "keycols": ["k2", "k1"], "pop": 5, "map_size": 53, "births": 3, "steps": 3, "seed": 8,
+                    "hetero": {"cohort": "frac", "imm": "int64", "cohort_time_ns": True}, "draw_at_creation": True})
+        out.append({"kind": "sim", "keycols": ["k1"], "pop": 4, "map_size": 41, "births": 2, "steps": 2, "seed": 9, "clock": "simple",
+                    "hetero": {"cohort": "int32", "imm": "float64"}, "drawer": True})
         out.append({"kind": "sim", "keycols": ["k3"], "pop": 5, "map_size": 53, "births": 2, "steps": 3, "seed": 6, "f31": True,
                     "draw_at_creation": True, "whole_frame": True})
         out.append({"kind": "sim", "keycols": ["k1", "k3", "k2"], "pop": 3, "map_size": 47, "births": 1, "steps": 2, "seed": 7, "f31": True,
@@ -858,6 +1005,7 @@ class C03(Prop):
             return (["sim", f"sim-ncols={len(case['keycols'])}", "sim-clock:" + case.get("clock", "datetime")]
                     + (["sim-size-from-population"] if 10 * case["pop"] > case["map_size"] else ["sim-size-from-config"])
                     + ["sim:" + k for k in ("split", "whole_frame", "draw_at_creation", "drawer", "untrack", "f31") if case.get(k)]
+                    + ([f"sim:hetero cohort={case['hetero']['cohort']} imm={case['hetero']['imm']}" + ("+ns" if case["hetero"].get("cohort_time_ns") else "")] if case.get("hetero") else [])
                     + (["sim:births=0"] if not case["births"] else []) + (["sim:creator(0)"] if case.get("zero_births_call") and not case["births"] else []) + (["sim:pop=1"] if case["pop"] == 1 else []))
         return ["hist"] + history_tags(case, obs["batches"])
 
